@@ -7,7 +7,8 @@
 (*     two finite maps type->name, name->type plus the scalar / module     *)
 (*     function tables, built by the Register / RegisterModule steps in    *)
 (*     the order of NewNodeActivatorsFactory, and the four lookups with    *)
-(*     their error results;                                                *)
+(*     their error results; a registry belongs to ONE factory (2b: heap of *)
+(*     map cells, Register on one factory leaves all others unchanged);    *)
 (*  2. the exactly representable activations in exact dyadic arithmetic    *)
 (*     (a number is [n, e] = n * 2^e): the two approximation sigmoids with *)
 (*     their breakpoints, clipped linear, linear, absolute, step, sign,    *)
@@ -50,15 +51,20 @@ Registrations == <<
   [type |-> 22, name |-> "MaxModuleActivation",                     kind |-> "module"],
   [type |-> 23, name |-> "MinModuleActivation",                     kind |-> "module"] >>
 
-\* registry state: act / mod = domains of the two function maps; fwd : type -> name; inv : name -> type
-EmptyReg == [act |-> {}, mod |-> {}, fwd |-> <<>>, inv |-> <<>>]
+\* registry state = the four maps of a factory: activators (act = its domain, simpl : type -> the function stored),
+\* moduleActivators (mod, mimpl), forward (fwd : type -> name) and inverse (inv : name -> type).  A function is named
+\* by a tag: a built-in by the name it is registered under, a user function by the optional field g.impl.
+EmptyReg == [act |-> {}, mod |-> {}, fwd |-> <<>>, inv |-> <<>>, simpl |-> <<>>, mimpl |-> <<>>]
 Put(f, k, v) == [x \in (DOMAIN f) \cup {k} |-> IF x = k THEN v ELSE f[x]]
+ImplOf(g) == IF "impl" \in DOMAIN g THEN g.impl ELSE g.name
 \* Register (kind "scalar") and RegisterModule (kind "module"): store the function, overwrite both name maps
 Register(r, g) ==
     [act |-> IF g.kind = "scalar" THEN r.act \cup {g.type} ELSE r.act,
      mod |-> IF g.kind = "module" THEN r.mod \cup {g.type} ELSE r.mod,
      fwd |-> Put(r.fwd, g.type, g.name),
-     inv |-> Put(r.inv, g.name, g.type)]
+     inv |-> Put(r.inv, g.name, g.type),
+     simpl |-> IF g.kind = "scalar" THEN Put(r.simpl, g.type, ImplOf(g)) ELSE r.simpl,
+     mimpl |-> IF g.kind = "module" THEN Put(r.mimpl, g.type, ImplOf(g)) ELSE r.mimpl]
 RECURSIVE RegFold(_, _, _)
 RegFold(r, gs, n) == IF n = 0 THEN r ELSE Register(RegFold(r, gs, n - 1), gs[n])
 RegAfter(n) == RegFold(EmptyReg, Registrations, n)
@@ -210,6 +216,51 @@ IsMaxOf(m, v, s) == (\E i \in DOMAIN v : DEq(m, D(v[i], s))) /\ \A i \in DOMAIN 
 IsMinOf(m, v, s) == (\E i \in DOMAIN v : DEq(m, D(v[i], s))) /\ \A i \in DOMAIN v : DLe(m, D(v[i], s))
 RECURSIVE ProdDef(_)
 ProdDef(v) == IF v = <<>> THEN 1 ELSE Head(v) * ProdDef(Tail(v))
+
+(* ======================================================================= *)
+(* 2b. Factories: a registry is per factory                                *)
+(* ======================================================================= *)
+\* NewNodeActivatorsFactory: the Registrations fold on a FRESH state.  The four maps live in a heap cell; a factory
+\* is a reference to a cell, factory 1 is the package default NodeActivators.  fresh = TRUE gives every new factory
+\* a cell of its own; fresh = FALSE models a constructor that copies the default factory's struct, i.e. shares its
+\* maps (kept only to show that FactoryIndependent below is not vacuous).
+NewFactory == FinalReg
+FacInit == [heap |-> <<NewFactory>>, fac |-> <<1>>]
+FacNew(s, fresh) == IF fresh THEN [heap |-> Append(s.heap, NewFactory), fac |-> Append(s.fac, Len(s.heap) + 1)]
+                    ELSE [heap |-> s.heap, fac |-> Append(s.fac, s.fac[1])]
+FacRegister(s, f, g) == [s EXCEPT !.heap[s.fac[f]] = Register(@, g)]
+FacView(s, f) == s.heap[s.fac[f]]
+\* C18 (the registry of one factory is its own): Register / RegisterModule on factory f leaves the four maps of
+\* every other factory unchanged
+OthersUnchanged(s, t, f) == \A h \in DOMAIN s.fac : h # f => FacView(t, h) = FacView(s, h)
+
+\* what a function tag computes at an exactly representable probe: <<has, n, e>>
+None == <<FALSE, 0, 0>>
+Some(y) == <<TRUE, y.n, y.e>>
+ValueAtZero == [SigmoidPlainActivation |-> D(1, -1), SigmoidReducedActivation |-> D(1, -1), SigmoidSteepenedActivation |-> D(1, -1),
+                SigmoidBipolarActivation |-> D(0, 0), SigmoidInverseAbsoluteActivation |-> D(1, -1), TanhActivation |-> D(0, 0),
+                GaussianBipolarActivation |-> D(1, 0), GaussianActivation |-> D(1, 0), SineActivation |-> D(0, 0)]
+ScalarImplApply(tag, x) ==
+    IF tag = "cube" THEN Some(D(x.n * x.n * x.n, 3 * x.e))                  \* user function x^3
+    ELSE IF tag \in ExactNames THEN Some(ExactApply(tag, x))
+    ELSE IF tag \in DOMAIN ValueAtZero /\ x.n = 0 THEN Some(ValueAtZero[tag])
+    ELSE None
+RECURSIVE SumFold(_, _)
+SumFold(v, n) == IF n = 0 THEN 0 ELSE SumFold(v, n - 1) + v[n]
+ModuleImplApply(tag, v) ==
+    IF tag = "sum" THEN Some(D(SumFold(v, Len(v)), 0))                     \* user module function: sum of the inputs
+    ELSE IF tag = "MultiplyModuleActivation" THEN Some(MultiplyModule(v, 0))
+    ELSE IF tag = "MaxModuleActivation" THEN Some(MaxModule(v, 0, TRUE))
+    ELSE IF tag = "MinModuleActivation" THEN Some(MinModule(v, 0, TRUE))
+    ELSE None
+\* everything a caller can observe of a registry about type t / name n (values at the probes 0, 2 and <<1, 2>>)
+TypeObs(r, t) ==
+    LET nm == NameFromType(r, t) IN
+    [t |-> t, scalar |-> ActivateByTypeOk(r, t), module |-> ActivateModuleByTypeOk(r, t), named |-> nm.ok, name |-> nm.name,
+     at0 |-> IF t \in r.act THEN ScalarImplApply(r.simpl[t], D(0, 0)) ELSE None,
+     at2 |-> IF t \in r.act THEN ScalarImplApply(r.simpl[t], D(2, 0)) ELSE None,
+     on12 |-> IF t \in r.mod THEN ModuleImplApply(r.mimpl[t], <<1, 2>>) ELSE None]
+NameObs(r, n) == LET ty == TypeFromName(r, n) IN [name |-> n, ok |-> ty.ok, t |-> ty.type]
 
 (* ======================================================================= *)
 (* 3. float64 values as <<sign, c1, c2, c3>>                               *)
